@@ -47,7 +47,8 @@ def records(c):
                 out.append(td + f['HGHT'][k])
                 out.append(td + f['PRES'][k])
         elif fmt == 'wind':
-            out.append(td + [c['lstagger']])
+            # time record  hour, idate, lstagger  -- or, for older files (lstagger None), just  hour, idate
+            out.append(td + ([c['lstagger']] if c.get('lstagger') is not None else []))
             for k in range(c['nz']):
                 out.append(f['U'][k])
                 out.append(f['V'][k])
@@ -509,4 +510,120 @@ def view_matches(o, e, k=None):  # noqa: F811
     for v, arr in e['data'].items():
         if o['data'].get(v) != arr:
             why.append('data of %s differs' % v)
+    return why
+
+
+# ----------------------------------------------------------------------------- cloud / rain files (3-field layout before CAMx 4.3, 5-field since)
+# published layout: header record  cldhdr (20 characters), nxcl, nycl, nzcl ; per time step a record  hour (HHMM), idate
+# followed, per layer, by one record per field of nx*ny values:
+#   before 4.3 : cloud water, precipitation water, optical depth            (CLOUD, PRECIP, COD)
+#   since  4.3 : cloud water, rain, snow, graupel, optical depth            (CLOUD, RAIN, SNOW, GRAUPEL, COD)
+CR_FIELDS = {3: ['CLOUD', 'PRECIP', 'COD'], 5: ['CLOUD', 'RAIN', 'SNOW', 'GRAUPEL', 'COD']}
+
+
+def _cr_ambiguous(c):
+    """the library tells the layouts apart by the file size only: a 3-field file whose data size is also a whole number of
+    5-field steps is inherently ambiguous (nx*ny = 2, one layer, three steps) and is not generated"""
+    if len(c['names']) != 3:
+        return False
+    lay = c['nz'] * (c['nx'] * c['ny'] + 2) * 4
+    return (len(c['steps']) * (3 * lay + 16)) % (5 * lay + 16) == 0
+
+
+def gen_cloud_rain(rng, tier='quick', rollover=0.3):
+    while True:
+        u = L.gen_uamiv(rng, tier, rollover)
+        nx, ny, nz = rng.randint(1, 3), rng.randint(1, 3), rng.randint(1, 3)
+        nsteps = rng.randint(1, 3)
+        names = CR_FIELDS[rng.choice([3, 5])]
+        base = u['steps'][0]
+        steps = []
+        for t in range(nsteps):
+            d, h = L.yyjjj_add_hours(base['bdate'], base['bhour'], t)
+            steps.append(dict(date=d, hhmm=h * 100,
+                              fields={v: [[L.finite_word(rng) for _ in range(nx * ny)] for _ in range(nz)] for v in names}))
+        c = dict(fmt='cloud_rain', nx=nx, ny=ny, nz=nz, names=names, steps=steps, lstagger=0,
+                 desc=rng.choice(['CAMx_V4.3 CLOUD_RAIN', 'CAMx_V4.2 CLOUD_RAIN', 'CLOUD RAIN FILE']))
+        if not _cr_ambiguous(c):
+            return c
+
+
+_records3 = records
+
+
+def records(c):  # noqa: F811
+    if c['fmt'] != 'cloud_rain':
+        return _records3(c)
+    import struct
+    out = [list(struct.unpack('>5I', c['desc'].ljust(20)[:20].encode('ascii'))) + [c['nx'], c['ny'], c['nz']]]
+    for s in c['steps']:
+        out.append([L.f32_word(float(s['hhmm'])), s['date']])
+        for k in range(c['nz']):
+            for v in c['names']:
+                out.append(list(s['fields'][v][k]))
+    return out
+
+
+_expected3 = expected_view
+
+
+def expected_view(c):  # noqa: F811
+    if c['fmt'] != 'cloud_rain':
+        return _expected3(c)
+    nx, ny = c['nx'], c['ny']
+    dims = dict(TSTEP=len(c['steps']), LAY=c['nz'], ROW=ny, COL=nx)
+    data = {v: [[[lay[j * nx:(j + 1) * nx] for j in range(ny)] for lay in s['fields'][v]] for s in c['steps']] for v in c['names']}
+    tflag = [[(2000000 if s['date'] < 70000 else 1900000) + s['date'], s['hhmm'] * 100] for s in c['steps']]
+    return dict(dims=dims, data=data, TFLAG=tflag, keys=list(c['names']))
+
+
+_open3 = open_memmap
+
+
+def open_memmap(fmt, path, c):  # noqa: F811
+    if fmt == 'cloud_rain':
+        from PseudoNetCDF.camxfiles import Memmaps
+        return Memmaps.cloud_rain(path, c['ny'], c['nx'])
+    return _open3(fmt, path, c)
+
+
+_write3 = write
+
+
+def write(fmt, f, path):  # noqa: F811
+    if fmt == 'cloud_rain':
+        from PseudoNetCDF.camxfiles.cloud_rain.Write import ncf2cloud_rain
+        out = ncf2cloud_rain(f, path)
+        if out is not None and hasattr(out, 'close'):
+            out.close()
+        return
+    return _write3(fmt, f, path)
+
+
+_observe3 = observe
+
+
+def observe(f, fmt):  # noqa: F811
+    if fmt != 'cloud_rain':
+        return _observe3(f, fmt)
+    import numpy as np
+    o = dict(dims={k: len(v) for k, v in f.dimensions.items() if k in ('TSTEP', 'LAY', 'ROW', 'COL', 'VAR')})
+    data = {}
+    for v in f.variables.keys():
+        if v == 'TFLAG':
+            continue
+        a = np.asarray(f.variables[v][...], dtype='>f4')
+        data[v] = a.view('>u4').astype('int64').tolist()
+    o['data'] = data
+    o['TFLAG'] = np.asarray(f.variables['TFLAG'][:, 0, :]).astype('int64').tolist()
+    return o
+
+
+_vm3 = view_matches
+
+
+def view_matches(o, e, k=None):  # noqa: F811
+    why = _vm3(o, e, k)
+    if 'keys' in e and list(o['data'].keys()) != e['keys']:
+        why.append('variables %s expected %s' % (list(o['data'].keys()), e['keys']))
     return why
